@@ -499,6 +499,22 @@ func c4forms(t c4T, thorough bool) []*c4form {
 		add("typed constant "+cs, nil, "any", "const k "+tn+" = "+cs+"\nv := k\nreturn v", k, nil)
 		add("typed constant then use "+cs, []c4T{t}, "any", "const k "+tn+" = "+cs+"\nv := k\nv += x\nreturn v", func(a []float64) c4res { return c4bin("+", t, c, a[0]) }, nil)
 	}
+	// J2. two constants in a row: evaluated left to right ((x op1 c1) op2 c2), never regrouped - regrouping is invisible
+	// for wrapping integers but changes float64 rounding (2^53 + 1 + 2, 1e-20 + 1 - 1)
+	for _, f := range [][4]string{{"+", "1", "+", "2"}, {"-", "1", "+", "2"}, {"+", "1", "-", "1"}, {"-", "3", "-", "4"}, {"+", "100", "+", "100"}} {
+		f := f
+		c1, c2 := c4parseConst(f[1]), c4parseConst(f[3])
+		or := func(a []float64) c4res {
+			first := c4bin(f[0], t, a[0], c1)
+			if first.panics {
+				return first
+			}
+			return c4bin(f[2], t, first.v, c2)
+		}
+		expr := "x " + f[0] + " " + f[1] + " " + f[2] + " " + f[3]
+		add(expr, []c4T{t}, tn, "return "+expr, or, nil)
+		add("v := x; v = v "+f[0]+" "+f[1]+" "+f[2]+" "+f[3], []c4T{t}, tn, "v := x\nv = v "+f[0]+" "+f[1]+" "+f[2]+" "+f[3]+"\nreturn v", or, nil)
+	}
 	// K. conversions T -> U
 	for _, u := range []c4T{c4i8, c4u8, c4i32, c4u32, c4f64} {
 		u := u
